@@ -560,3 +560,143 @@ pub fn run_attrroute(_tier: &str, _seed: u64, out: &mut Out) {
         }
     }
 }
+
+
+// ---------------------------------------------------------------------------------------------------------------
+// Histories given as DATA CHANGES (what setData / splice calls hand to the template engine), not as trees: the update
+// path tree of each step is built by the real runtime's `updateValues` (glass-easel/src/tmpl/index.ts, translated on
+// every run), including the splice form and the binding-map shortcut for a single top-level change.
+
+fn value_at<'a>(d: &'a J, path: &[String]) -> Option<&'a J> {
+    let mut cur = d;
+    for p in path {
+        if let Some(o) = cur.get("$o") {
+            cur = o.get(p)?;
+        } else if let Some(a) = cur.get("$a") {
+            cur = a.as_array()?.get(p.parse::<usize>().ok()?)?;
+        } else {
+            return None;
+        }
+    }
+    Some(cur)
+}
+
+fn set_at(d: &mut J, path: &[String], nv: J) {
+    let p: Vec<&str> = path.iter().map(|x| x.as_str()).collect();
+    set_path(d, &p, nv);
+}
+
+/// all paths to values inside `d` (objects and arrays are visited; the root itself is excluded)
+fn all_paths(d: &J, prefix: &mut Vec<String>, out: &mut Vec<(Vec<String>, bool)>) {
+    if let Some(o) = d.get("$o").and_then(|x| x.as_object()) {
+        for (k, v) in o {
+            prefix.push(k.clone());
+            out.push((prefix.clone(), v.get("$a").is_some()));
+            all_paths(v, prefix, out);
+            prefix.pop();
+        }
+    } else if let Some(a) = d.get("$a").and_then(|x| x.as_array()) {
+        for (i, v) in a.iter().enumerate() {
+            prefix.push(i.to_string());
+            out.push((prefix.clone(), v.get("$a").is_some()));
+            all_paths(v, prefix, out);
+            prefix.pop();
+        }
+    }
+}
+
+pub fn run_changes(tier: &str, seed: u64, out: &mut Out) {
+    let mut rng = Rng::new(seed ^ 0xc4a6e5);
+    let templates: Vec<&str> = vec![
+        "<block wx:for=\"{{ l }}\"><text>{{ index }}={{ item.a }}/{{ item.x }}</text></block>",
+        "<block wx:for=\"{{ l }}\" wx:key=\"a\"><text>{{ index }}={{ item.a }}/{{ item.x }}</text></block>",
+        "<v wx:for=\"{{ l }}\" wx:key=\"*this\" a=\"{{ item }}\" b=\"{{ index }}\">{{ l.length }}</v>",
+        "<v a=\"{{ l[0].a }}\" b=\"{{ l[1] }}\" c=\"{{ l.length }}\" d=\"{{ l[d].x }}\">{{ l[l.length - 1].a }}</v>",
+        "<block wx:for=\"{{ g }}\" wx:for-item=\"gr\" wx:key=\"name\"><block wx:for=\"{{ gr.members }}\" wx:for-item=\"m\"><text>{{ gr.name }}:{{ m.name }}:{{ index }}</text></block></block>",
+        "<block wx:if=\"{{ l.length > 2 }}\">long {{ l[2].a }}</block><block wx:else>short {{ a }}</block><v p=\"{{ [a, ...l, b] }}\" q=\"{{ {k: a, ...o} }}\"/>",
+        "<template name=\"t\">{{ x.a }}|{{ y }}|<block wx:for=\"{{ z }}\">{{ item.a }},</block></template><template is=\"t\" data=\"{{ x: l[0], y: o.a, z: l }}\"/>",
+        "<v a=\"{{ a }}\" b=\"{{ b }}\">{{ a }}{{ c }}</v><text>{{ o.a }}{{ o.b.x }}</text><v wx:if=\"{{ a }}\">{{ b }}</v>",
+        "<block wx:for=\"{{ o.list }}\" wx:key=\"a\">{{ item.a }}{{ item.x }}</block><block wx:for=\"{{ q }}\" wx:key=\"id\">{{ index }}{{ item.v }}</block>",
+    ];
+    let item = |a: i64, x: &str| json!({"$o": {"a": a, "x": x}});
+    let base = json!({"$o": {
+        "a": 1, "b": "B", "c": true, "d": 0,
+        "o": {"$o": {"a": "oa", "b": {"$o": {"x": "deep"}}, "list": {"$a": [item(1, "p"), item(2, "q")]}}},
+        "l": {"$a": [item(10, "i"), item(20, "j"), item(30, "k")]},
+        "q": {"$o": {"u": {"$o": {"id": 1, "v": "x"}}, "w": {"$o": {"id": 2, "v": "y"}}}},
+        "g": {"$a": [{"$o": {"name": "g0", "members": {"$a": [{"$o": {"name": "m00"}}, {"$o": {"name": "m01"}}]}}},
+                     {"$o": {"name": "g1", "members": {"$a": [{"$o": {"name": "m10"}}]}}}]},
+    }});
+    let fresh_values = |rng: &mut Rng, n: usize| -> Vec<J> {
+        (0..n).map(|_| match rng.below(4) {
+            0 => item(100 + rng.below(50) as i64, "n"),
+            1 => json!({"$o": {"a": rng.below(9), "x": "m", "name": "nn", "members": {"$a": [{"$o": {"name": "mm"}}]}}}),
+            2 => json!(rng.below(100)),
+            _ => json!("s"),
+        }).collect()
+    };
+    let n_hist = if tier == "thorough" { 400 } else { 60 };
+    let mut id = 0;
+    for (ti, src) in templates.iter().enumerate() {
+        let mut tg = TmplGroup::new();
+        let diags = tg.add_tmpl("p", src);
+        let max_level = diags.iter().map(|d| d.kind.level() as u8).max().unwrap_or(0);
+        let bundle = tg.get_tmpl_gen_object_groups().unwrap_or_default();
+        for h in 0..n_hist {
+            let mode = ["disabled", "enabled"][(id % 2) as usize];
+            let mut cur = base.clone();
+            let mut datas = vec![cur.clone()];
+            let mut steps: Vec<J> = vec![];
+            let n_steps = 3 + rng.below(4);
+            for _ in 0..n_steps {
+                let n_changes = if rng.chance(1, 2) { 1 } else { 1 + rng.below(3) };
+                let mut changes: Vec<J> = vec![];
+                for _ in 0..n_changes {
+                    let mut paths = vec![];
+                    all_paths(&cur, &mut vec![], &mut paths);
+                    let arrays: Vec<&(Vec<String>, bool)> = paths.iter().filter(|x| x.1).collect();
+                    if !arrays.is_empty() && rng.chance(2, 5) {
+                        // splice: (path, inserted values, index, deleted count)
+                        let (path, _) = arrays[rng.below(arrays.len())].clone();
+                        let len = value_at(&cur, &path).and_then(|v| v.get("$a")).and_then(|a| a.as_array()).map(|a| a.len()).unwrap_or(0);
+                        let index = rng.below(len + 1);
+                        let del = rng.below(3).min(len - index);
+                        let n_ins = rng.below(3);
+                        let ins = fresh_values(&mut rng, n_ins);
+                        let mut arr = value_at(&cur, &path).unwrap().get("$a").unwrap().as_array().unwrap().clone();
+                        arr.splice(index..index + del, ins.iter().cloned());
+                        set_at(&mut cur, &path, json!({"$a": arr}));
+                        changes.push(json!({"path": path, "value": {"$a": ins}, "index": index, "del": del}));
+                    } else {
+                        // replace at an existing path (a leaf, an item, a whole list / object) or at a top-level field
+                        // (a single change of a top-level field takes the binding-map shortcut when the mode allows it)
+                        let (path, _) = if rng.chance(1, 4) || (mode == "enabled" && n_changes == 1 && rng.chance(1, 2)) {
+                            (vec![(*rng.pick(&["a", "b", "c", "d", "l", "o"])).to_string()], false)
+                        } else {
+                            paths[rng.below(paths.len())].clone()
+                        };
+                        let nv = if path.len() == 1 && (path[0] == "l" || path[0] == "g") && rng.chance(2, 3) {
+                            let k = rng.below(4);
+                            json!({"$a": fresh_values(&mut rng, k)})
+                        } else if path.len() == 1 && path[0] == "d" {
+                            json!(rng.below(3))
+                        } else {
+                            fresh_values(&mut rng, 1).pop().unwrap()
+                        };
+                        set_at(&mut cur, &path, nv.clone());
+                        changes.push(json!({"path": path, "value": nv}));
+                    }
+                }
+                datas.push(cur.clone());
+                steps.push(json!(changes));
+            }
+            let job = json!({
+                "kind": "behave_changes", "id": format!("C{}-{}", ti, h), "src": src, "bundle": bundle, "path": "p", "max_level": max_level,
+                "datas": datas, "changes": steps, "mode": mode,
+                "features": [format!("changes-template-{}", ti)], "slotValues": {"$o": {}},
+            });
+            id += 1;
+            out.raw(&job.to_string());
+        }
+    }
+}
